@@ -4,7 +4,7 @@ import re
 from .. import common, gen, trees, parsing
 
 LEVEL = "proof"
-EXTRA_LEAN_MODULES = ["Luqum.Props.GenPrint"]   # __str__ translated from the source (tools/pysym.py)
+EXTRA_LEAN_MODULES = ["Luqum.Props.GenPrint", "Luqum.Props.GenMark"]   # __str__ and mark_node translated from the source (tools/pysym.py)
 RULE = ("parsed queries (all constructs, random layouts) x pairs of disjoint random path sets (0..all nodes, "
         "ancestors and descendants marked with equal and different classes) x both modes; the markup is parsed "
         "by a small state machine and the class of every character recomputed from an independent layout of the "
